@@ -41,7 +41,7 @@ type ServerNode struct {
 type PeerNet struct {
 	W       *World
 	Servers map[string]*ServerNode
-	// Fault decides what happens to the next request: "", loss, http500, http400, timeout, delay
+	// Fault decides what happens to the next request: "", loss, http500, http400, timeout, delay, cutbody, stallbody
 	Fault    func(from int, host string) string
 	Requests int
 	Fired    map[string]int
@@ -117,8 +117,37 @@ func (rt *peerRT) RoundTrip(req *http.Request) (*http.Response, error) {
 	if fault == "delay" {
 		s.Yield("peer.recv.late", rt.from)
 	}
-	return rec.Result(), nil
+	resp := rec.Result()
+	if fault == "cutbody" || fault == "stallbody" {
+		// status line and headers arrive, the body does not: the connection is cut after half of it, or
+		// stalls until the client's deadline
+		b, _ := io.ReadAll(resp.Body)
+		resp.Body = &brokenBody{data: b[:len(b)/2], stall: fault == "stallbody", ctx: req.Context()}
+	}
+	return resp, nil
 }
+
+// brokenBody delivers the first half of a response body and then fails.
+type brokenBody struct {
+	data  []byte
+	stall bool
+	ctx   context.Context
+}
+
+func (b *brokenBody) Read(p []byte) (int, error) {
+	if len(b.data) > 0 {
+		n := copy(p, b.data)
+		b.data = b.data[n:]
+		return n, nil
+	}
+	if b.stall {
+		<-b.ctx.Done()
+		return 0, b.ctx.Err()
+	}
+	return 0, io.ErrUnexpectedEOF
+}
+
+func (b *brokenBody) Close() error { return nil }
 
 // NewPeerNet creates the simulated peer network.
 func (w *World) NewPeerNet() *PeerNet {
